@@ -10,7 +10,7 @@ use sux::utils::FromIntoIterator;
 fn case(inp: &[u64]) -> Result<(), String> {
     let (n, edge, hintm, flags, seed) = (inp[0] as usize, inp[1] % 4, inp[2] % 4, inp[3], inp[4]);
     let hint: Option<usize> = match hintm { 0 => Some(n), 1 => None, 2 => Some(n + n / 3), _ => Some(n / 2) };
-    let val = move |k: usize| -> usize { (k.wrapping_mul(0x9E37_79B9_7F4A_7C15usize) ^ seed as usize) & 0xFFFF };
+    let val = move |k: usize| -> usize { if k == 0 { 0xFFFF } else { (k.wrapping_mul(0x9E37_79B9_7F4A_7C15usize) ^ seed as usize) & 0xFFFF } };   // the largest value is 2^16 - 1
     macro_rules! go { ($S:ty, $E:ty) => {{
         if flags & 4 == 0 {
             let mut b = VBuilder::<usize, BitFieldVec<usize>, $S, $E>::default().offline(flags & 1 != 0).low_mem(flags & 2 != 0).seed(seed).max_num_threads(if flags & 8 != 0 { 1 } else { 8 });
@@ -18,6 +18,10 @@ fn case(inp: &[u64]) -> Result<(), String> {
             let f: VFunc<usize, usize, BitFieldVec<usize>, $S, $E> = b.try_build_func(FromIntoIterator::from(0..n), FromIntoIterator::from((0..n).map(val)), no_logging![]).map_err(|e| format!("build failed: {}", e))?;
             if f.len() != n { return Err(format!("len {} != {}", f.len(), n)); }
             for k in 0..n { if f.get(k) != val(k) { return Err(format!("get({}) = {} expected {}", k, f.get(k), val(k))); } }
+            // space (C11): b-bit values in at most 1.135 n b bits from 100000 keys upward (default sharded edge; 1.15 with the shard imbalance), 1.23 n b below
+            { use mem_dbg::{MemSize, SizeFlags}; let bits = 8.0 * f.mem_size(SizeFlags::default()) as f64; let b = 16.0;
+              if edge == 0 && n >= 100_000 && bits > 1.15 * n as f64 * b + 8192.0 { return Err(format!("{} bits for {} keys of 16-bit values: {:.4} n b", bits, n, bits / (n as f64 * b))); }
+              if n >= 1000 && bits > 1.23 * n as f64 * b + 8192.0 { return Err(format!("{} bits for {} keys of 16-bit values: {:.4} n b > 1.23 n b", bits, n, bits / (n as f64 * b))); } }
             // the unaligned query path (values have at most 16 bits: within the widths get_unaligned admits; the builder pads the backend)
             for k in 0..n { if f.get_unaligned(k) != val(k) { return Err(format!("get_unaligned({}) = {} expected {}", k, f.get_unaligned(k), val(k))); } }
         } else {
